@@ -253,14 +253,14 @@ func (w *c31World) key() string {
 		// rank of the peer-reported handshake times among the held tunnels
 		times := []uint64{}
 		for _, hi := range list {
-			times = append(times, hi.lastHandshakeTime)
+			times = append(times, uint64(hi.lastHandshakeTime))
 		}
 		sort.Slice(times, func(i, j int) bool { return times[i] < times[j] })
 		rank := func(t uint64) int { return sort.Search(len(times), func(i int) bool { return times[i] >= t }) }
 		fmt.Fprintf(&sb, "%s{", n.spec.Name)
 		for _, hi := range list {
 			fmt.Fprintf(&sb, "(%s->%s init=%v in=%v out=%v pd=%v t=%d rem=%v)", names[hi.localIndexId], c31Name(names, hi.remoteIndexId),
-				hi.ConnectionState.initiator, hi.in.Load(), hi.out.Load(), hi.pendingDeletion.Load(), rank(hi.lastHandshakeTime), hi.GetRemote().IsValid())
+				hi.ConnectionState.initiator, hi.in.Load(), hi.out.Load(), hi.pendingDeletion.Load(), rank(uint64(hi.lastHandshakeTime)), hi.GetRemote().IsValid())
 		}
 		hmap.RUnlock()
 		n.hm.RLock()
